@@ -15,6 +15,8 @@ mod gen_tuples;
 mod guard_engine;
 mod query_engine;
 mod sched;
+mod serde_engine;
+mod tok;
 mod tracker_engine;
 mod world_engine;
 
